@@ -83,6 +83,8 @@ def make_env(P, servertype):
             return {"k": [1, 2, "é"]}
         if mode == "accept-unserialisable":
             return threading.Lock()
+        if mode == "accept-big":
+            return "w" * 4000
         if mode.startswith("ticket:"):
             # a validator whose decision depends on history, not only on the handshake bytes: one-time tickets
             if mode in used_tickets:
@@ -160,10 +162,16 @@ def gen_case(r, n):
         c["first"] = "connect"
         c["mode"] = r.choice(["accept", "accept", "accept-data"])
         c["objid"] = r.choice(["marker", "Pyro.Daemon"])
-    elif k < 0.22:
+    elif k < 0.2:
         c["first"] = "connect"
         c["mode"] = "accept-unserialisable"
         c["objid"] = "marker"
+    elif k < 0.22:
+        # the validator accepts, but the answer cannot be sent: it is larger than the configured MAX_MESSAGE_SIZE (the peer's messages all fit)
+        c["first"] = "connect"
+        c["mode"] = "accept-big"
+        c["objid"] = "marker"
+        c["maxsize"] = r.choice([1500, 2500])
     elif k < 0.3:
         c["first"] = "connect"
         c["mode"] = "ticket:%d" % r.randrange(12)
@@ -295,6 +303,10 @@ def run_case(fx, log, c, rec, r):
         rec.inconc("cannot connect: %r" % (x,))
         return
     first = None
+    saved_max = P.config.MAX_MESSAGE_SIZE
+    if c.get("maxsize"):
+        P.config.MAX_MESSAGE_SIZE = c["maxsize"]
+        rec.count("cases_with_small_max_message_size")
     try:
         try:
             if buf:
@@ -349,6 +361,9 @@ def run_case(fx, log, c, rec, r):
             closed = None
     finally:
         cl.close()
+        if c.get("maxsize"):
+            time.sleep(0.05)
+            P.config.MAX_MESSAGE_SIZE = saved_max
     events = log.snapshot()
     execs = [e for e in events if e[1] == "exec"]
     metas = [e for e in events if e[1] == "get_metadata"]
